@@ -1,4 +1,4 @@
 SPECIFICATION Spec
-INVARIANTS OnlySafeURLs UsedOnlyIfMatching PKCERequired NoScriptSchemes ExchangeOnlyIfStateAndIss PreregBoundToIssuer TokenOnlyIfChecksPassed ResultKnown
+INVARIANTS OnlySafeURLs UsedOnlyIfMatching PKCERequired NoScriptSchemes ExchangeOnlyIfStateAndIss PreregBoundToIssuer NoFallbackAfterRejected TokenOnlyIfChecksPassed ResultKnown
 PROPERTY NoTokenAfterFailure
 CHECK_DEADLOCK FALSE
